@@ -449,7 +449,7 @@ def run(ctx):
     if ctx.quick:
         n_pairs, n_unary, n_full, n_near = 100, 30, 16, 6
     else:
-        n_pairs, n_unary, n_full, n_near = 2500, 800, 400, 200
+        n_pairs, n_unary, n_full, n_near = 1000, 300, 160, 80
     cases = corpus_cases() + gen_cases(ctx, rng, n_pairs, n_unary, n_full, n_near)
     ctx.log('generated %d cases' % len(cases))
     runner.run(cases, stats=6)
